@@ -3,6 +3,7 @@ import LlirModel.Drv.LitOps
 import LlirModel.Drv.WriterOps
 import LlirModel.Drv.EnumOps
 import LlirModel.Drv.TypeOps
+import LlirModel.Drv.TypingOps
 open Llir Llir.Drv
 
 def dispatch (op : String) (args : List String) : String :=
@@ -19,6 +20,9 @@ def dispatch (op : String) (args : List String) : String :=
   | some r => r
   | none =>
   match typeOps op args with
+  | some r => r
+  | none =>
+  match typingOps op args with
   | some r => r
   | none => "unknown-op"
 
